@@ -354,7 +354,7 @@ class Ctx:
 
 
 # --- running the compiler proper ------------------------------------------------------
-def cproc(objdir, src, target="x86_64-sysv", args=(), env=None, timeout=20, tokdump=False, trace=None, path=None):
+def cproc(objdir, src, target="x86_64-sysv", args=(), env=None, timeout=20, tokdump=False, trace=None, path=None, stack=None):
     """Run <objdir>/cproc-qbe on source text (stdin unless path given). Returns (rc, stdout str, stderr str).
     rc < 0: killed by signal -rc; rc == -999: timeout."""
     e = dict(os.environ)
@@ -369,6 +369,8 @@ def cproc(objdir, src, target="x86_64-sysv", args=(), env=None, timeout=20, tokd
     if env:
         e.update(env)
     cmd = [os.path.join(objdir, "cproc-qbe")] + (["-t", target] if target else []) + list(args)
+    if stack:
+        cmd = ["prlimit", "--stack=%d" % stack] + cmd      # same (large) stack limit for whatever build runs
     data = None
     if path is not None:
         cmd.append(path)
